@@ -25,7 +25,7 @@ type File struct {
 
 // Edit of the directory or of atlas.sum.
 type Edit struct {
-	Kind string `json:"kind"` // add | remove | rename | swap | flip | insert | delete | sum-flip | sum-del-line | sum-dup-line | sum-swap-lines | sum-truncate | sum-remove
+	Kind string `json:"kind"` // add | remove | rename | swap | flip | insert | delete | sum-flip | sum-del-line | sum-dup-line | sum-swap-lines | sum-truncate | sum-remove | sum-shift | sum-join
 	File int    `json:"file,omitempty"`
 	Peer int    `json:"peer,omitempty"` // swap: other file; sum-swap-lines: other line
 	Off  int    `json:"off,omitempty"`
@@ -256,6 +256,26 @@ func applySumEdit(sum string, e Edit) (string, bool) {
 		}
 		b[e.Off] = n
 		return string(b), true
+	case "sum-shift", "sum-join":
+		// edits that keep the concatenation of names and hashes: the first character of a hash moves to the end of
+		// the file name in front of it / two entry lines become one (File = line index >= 1)
+		if e.File < 1 || e.File >= len(lines) {
+			return "", false
+		}
+		l := lines[e.File]
+		i := strings.LastIndex(l, " h1:")
+		if i <= 0 || i+5 >= len(l) {
+			return "", false
+		}
+		if e.Kind == "sum-shift" {
+			lines[e.File] = l[:i] + l[i+4:i+5] + " h1:" + l[i+5:]
+			return strings.Join(lines, ""), true
+		}
+		if e.File+1 >= len(lines) {
+			return "", false
+		}
+		lines[e.File] = strings.TrimSuffix(l, "\n") + lines[e.File+1]
+		return strings.Join(append(lines[:e.File+1], lines[e.File+2:]...), ""), true
 	case "sum-del-line":
 		if e.File < 1 || e.File >= len(lines) {
 			return "", false
